@@ -88,6 +88,7 @@ func c08pipeModel(c *Ctx, ruleMirror, ruleHop, ruleState string) {
 		return ok && types.Identical(pt.Elem(), srT)
 	}
 	inner := m.it.stub
+	inParse := false
 	m.it.stub = func(f *types.Func, recv oval, args []oval) ([]oval, bool) {
 		sig := f.Type().(*types.Signature)
 		// (*SR).Transformers(): the two members of a reference, as uninterpreted functions
@@ -147,6 +148,17 @@ func c08pipeModel(c *Ctx, ruleMirror, ruleHop, ruleState string) {
 					out = append(out, oSym{symAtom("shz_"+tag, named...)})
 				}
 				return append(out, oIface{}), true
+			}
+		}
+		// a reference the pipeline parses for itself (the WGS84 hop): interpreted as it stands, and
+		// labelled by its datum code here, where the reference — not only its datum — is in hand
+		if f == parse && !inParse && len(args) == 1 {
+			inParse = true
+			res, why := m.it.Call(f, nil, args, 1)
+			inParse = false
+			if why == "" && len(res) == 2 {
+				p.labelOf(res[0])
+				return res, true
 			}
 		}
 		return inner(f, recv, args)
